@@ -383,11 +383,23 @@ func c06Early(c c06Case, o *Outcome) *Outcome {
 	// Invoke has returned: the request is ours again
 	marker := MsgSpec{Raw: []byte("OVERWRITTEN-AFTER-RETURN"), Count: -77}
 	c06Overwrite(req, marker)
+	// ... and so is the response object: e.g. a retry has meanwhile put its own reply there
+	respMarker := MsgSpec{Raw: []byte("REPLY-OF-THE-RETRY"), Count: -78}
+	c06Overwrite(resp, respMarker)
 	close(gate.release)
 	select {
 	case <-decoded:
 	case <-time.After(stallBound):
 		return o.failf("handler never ran")
+	}
+	// the abandoned handler now returns its response; the library must not write it into the caller's message
+	if err != nil {
+		for i := 0; i < 40; i++ {
+			time.Sleep(100 * time.Microsecond)
+			if got := c06Canon(resp); !sameMsg(got, respMarker.Build()) {
+				return o.failf("%s (dyn client=%v server=%v): Invoke returned %v; the caller reused its response object, and the abandoned handler's late response was then written into it: %v", c.Cloner, c.DynCli, c.DynSrv, err, got)
+			}
+		}
 	}
 	mu.Lock()
 	defer mu.Unlock()
